@@ -693,6 +693,7 @@ func (c *Ctx) checkElemDomain(r *fnRef, lc *linCtx, spec elemDomainSpec) {
 	}
 	roles := lc.stdRoles()
 	established := map[string]bool{}
+	whyNot := map[string]string{}
 	for _, rl := range loops {
 		if len(rl.elems) == 0 {
 			continue
@@ -748,10 +749,17 @@ func (c *Ctx) checkElemDomain(r *fnRef, lc *linCtx, spec elemDomainSpec) {
 			all := true
 			det := ""
 			for _, latch := range rl.lp.Backs {
-				ok, dd := lc.proveAll(latch, nil, d)
+				// the back edge itself may be conditional (`a || b` guards
+				// end in the block that jumps back to the header)
+				var edge []cons
+				if ifi, isIf := latch.Instrs[len(latch.Instrs)-1].(*ssa.If); isIf && latch.Succs[0] != latch.Succs[1] {
+					edge = lc.condCons(ifi.Cond, latch.Succs[0] == rl.header)
+				}
+				ok, dd := lc.proveAll(latch, edge, d)
 				det = dd
 				if !ok {
 					all = false
+					whyNot[d.why] = dd
 					break
 				}
 			}
@@ -791,7 +799,7 @@ func (c *Ctx) checkElemDomain(r *fnRef, lc *linCtx, spec elemDomainSpec) {
 		for _, d := range cs {
 			if !established[d.why] {
 				L.Bad(spec.Rule, r.label, "every element: "+d.why, c.P.Pos(fn.Pos()),
-					"no validation loop over "+spec.Slice+" establishes this bound for every element before a success return (an out-of-range element is accepted)")
+					"no validation loop over "+spec.Slice+" establishes this bound for every element before a success return (an out-of-range element is accepted); "+whyNot[d.why])
 			}
 		}
 	}
